@@ -140,6 +140,7 @@ class Encoder:
         bodyok = {}
         bend = {}
         closing_pool = False
+        garbage = set()
         for e in self.run.events:
             k = e["ev"]
             if k == "Init":
@@ -154,8 +155,11 @@ class Encoder:
                 nsent[e["r"]] = len(e.get("sent_on", []))
             elif k == "BodyEnd":
                 bend[e["r"]] = "full" if e.get("complete") else "partial"
-                bodyok[e["r"]] = bool(e.get("bodyok", True))
+                # (bytes the driver injected itself into a close-delimited body are that body)
+                bodyok[e["r"]] = bool(e.get("bodyok", True)) or e["r"] in garbage
             elif k == "Fault":
+                if e.get("fault") == "Garbage":
+                    garbage.add(e["r"])
                 if e["r"] in self.rid:
                     evs.append({"e": "Fault", "r": self.rid[e["r"]], "inj": e.get("fault") != "collateral", "obs": last})
             elif k == "Cancel":
@@ -225,6 +229,8 @@ DEVIATIONS = [
     "ReconnectOnFailed",
     "WaiterCancelFlagsFailed",
     "ActivateEvicted",
+    "InitRetryOnClosed",
+    "MuxCancelCorrupts",
 ]  # same order as AllDevs in MCPoolTrace.tla
 
 
